@@ -234,6 +234,33 @@ def targeted_jobs(chk, cmp=CMP_SPEND):
             tx = btc.Tx(version=2, vin=[btc.TxIn(funding.txid(), 0, sig0, 0xffffffff)], vout=[btc.TxOut(60000, b"\x51")])
             tx.witness = [wit]
             add("hashbit:%s:%d" % (typ, pos), tx, funding)
+    # taproot signatures made over the default digest with a hash-type byte spelled out behind them: 00 is not a hash type that may be
+    # written (invalid), 01 names another digest (invalid); in whole key-path and script-path spends
+    for typ in ("p2tr-key", "p2tr-script"):
+        for byte in (b"\x00", b"\x01", b"\x80", b"\x04"):
+            for rep in range(2):
+                c = SpendCase(rng, typ, "valid", 1, 0, 0)
+                tries = 0
+                while len(c.tx.witness[0][0]) != 64 and tries < 40:
+                    c = SpendCase(rng, typ, "valid", 1, 0, 0); tries += 1
+                if len(c.tx.witness[0][0]) != 64: continue
+                c.tx.witness[0][0] = c.tx.witness[0][0] + byte
+                add("schnorr-spelled:%s:%s:%d" % (typ, byte.hex(), rep), c.tx, c.funding)
+    # a funding transaction whose encoding contains compact sizes at the one- / three-byte boundary (script lengths 252..256, 253 outputs):
+    # the identifier the spending input refers to is the hash of exactly that encoding
+    for ln in (252, 253, 254, 255, 256, 65535, 65536):
+        for where in ("other-output", "input-script", "many-outputs"):
+            if where == "many-outputs" and ln > 256: continue
+            ws = b"\x51"
+            vout = [btc.TxOut(70000, btc.p2wsh(ws)[0])]
+            vin_script = b"\x51"
+            if where == "other-output": vout.append(btc.TxOut(0, b"\x6a" + b"\x61" * (ln - 1)))
+            elif where == "input-script": vin_script = b"\x61" * ln
+            else: vout += [btc.TxOut(k, b"\x51") for k in range(ln - 1)]
+            funding = btc.Tx(version=2, vin=[btc.TxIn(rb(rng, 32), 0, vin_script, 0xffffffff)], vout=vout)
+            tx = btc.Tx(version=2, vin=[btc.TxIn(funding.txid(), 0, b"", 0xffffffff)], vout=[btc.TxOut(60000, b"\x51")])
+            tx.witness = [[ws]]
+            add("fund-compactsize:%s:%d" % (where, ln), tx, funding)
     # P2SH with a scriptSig that is not push-only (consensus: SIG_PUSHONLY)
     for rep in range(3):
         c = SpendCase(rng, "p2sh", "valid", 1, 0, 0)
